@@ -59,6 +59,8 @@ type target struct {
 	newCtx     func() (any, func())          // optional per-worker context + cleanup
 	call       func(ctx any, in []byte) bool // execute on the REAL code; returns "non-trivial" (got past the first checks)
 	light      bool                          // skip 16-bit sweeps (expensive per call)
+	precheck   func() *panicInfo             // optional: validates the pre-state itself once; non-nil = the pre-state already wedges (recorded, part skipped)
+	quickLite  bool                          // quick tier: seeds, truncations, length-field values and 2 KiB variants only (a further configuration of an entry point whose primary configuration gets the full generator)
 	quickSkip  bool                          // part runs only in the thorough tier
 	quickSeeds int                           // if >0: the quick tier uses only the first n seeds (expensive isolated targets)
 }
@@ -74,6 +76,7 @@ type panicInfo struct {
 	site    string
 	stack   string
 	harness bool
+	kind    string // "" = panic
 }
 
 // witness of one root cause (panic site).
@@ -270,7 +273,11 @@ func (e *engine) runJobs(t *target, jobs []job, jobIdx []int, nw int, skipJob, s
 						if p.harness {
 							e.run.HarnessError(t.name + ": " + p.msg)
 						} else {
-							e.record("panic", t, b, p.site, p.msg, p.stack)
+							k := p.kind
+							if k == "" {
+								k = "panic"
+							}
+							e.record(k, t, b, p.site, p.msg, p.stack)
 						}
 					}
 				})
@@ -352,6 +359,21 @@ func (e *engine) runTarget(t *target) {
 		e.run.AddPart(report.Part{Name: t.name, Engine: "D", Bound: boundText(t, e.thorough), Exhaustive: false, Note: "skipped: a hang was confirmed earlier in this run"})
 		return
 	}
+	if t.precheck != nil {
+		if p := t.precheck(); p != nil {
+			if p.harness {
+				e.run.HarnessError(t.name + ": " + p.msg)
+			} else {
+				k := p.kind
+				if k == "" {
+					k = "panic"
+				}
+				e.record(k, t, nil, p.site, p.msg, p.stack)
+			}
+			e.run.AddPart(report.Part{Name: t.name, Engine: "D", Bound: boundText(t, e.thorough), Exhaustive: false, Note: "pre-state itself violates the property (reported); packets not delivered"})
+			return
+		}
+	}
 	jobs := buildJobs(t, e.thorough)
 	t0 := time.Now()
 	var calls, nt int64
@@ -391,6 +413,9 @@ func boundText(t *target, thorough bool) string {
 		b += fmt.Sprintf(" (+%d framings)", len(t.wraps))
 	}
 	b += ", 2KiB padded/repeated"
+	if !thorough && t.quickLite {
+		b = fmt.Sprintf("%d seeds: truncations, 8-bit length fields x 256, 16-bit length fields x boundary values, 2KiB padded/repeated (full generator in thorough)", len(t.seeds))
+	}
 	if thorough {
 		b += ", length-field pairs"
 		if !t.light {
@@ -687,7 +712,7 @@ func childMain(run *report.Run, ts []*target) int {
 			cleanup()
 		}
 		if p != nil {
-			enc.Encode(childMsg{Viol: &childViol{Kind: "panic", Site: p.site, Msg: p.msg, Stack: p.stack, Input: *flagOne, Count: 1}})
+			enc.Encode(childMsg{Viol: &childViol{Kind: map[bool]string{true: "panic", false: p.kind}[p.kind == ""], Site: p.site, Msg: p.msg, Stack: p.stack, Input: *flagOne, Count: 1}})
 		}
 		enc.Encode(childMsg{Done: true, Evals: 1})
 		return 0
